@@ -144,7 +144,7 @@ func c11Messages(thorough bool) []c11msg {
 	tx := func(s string) MPart { return MPart{Kind: "text", Text: s} }
 	ht := func(s string) MPart { return MPart{Kind: "html", Text: s} }
 	pr := func(e *E) MPart { return MPart{Kind: "print", E: e} }
-	alpha := []MPart{tx("Hi "), tx(" and "), tx("!"), ht("<b>"), ht("</b>"), ht("<br/>"), pr(vr("a")), pr(vr("b")), pr(vr("c", Acc{Kind: "dot", Key: "x"})), pr(vr("x")), pr(vr("x_1")),
+	alpha := []MPart{tx("Hi "), tx(" and "), tx("!"), tx("{lb}"), tx("{rb}"), ht("<b>"), ht("</b>"), ht("<br/>"), pr(vr("a")), pr(vr("b")), pr(vr("c", Acc{Kind: "dot", Key: "x"})), pr(vr("x")), pr(vr("x_1")),
 		pr(bin("+", vr("b"), I(1))), {Kind: "call", Text: "{call .sub data=\"all\"/}"}, pr(vr("i"))}
 	var out []c11msg
 	var rec func(parts []MPart)
@@ -236,6 +236,35 @@ func checkC11(c *Ctx) {
 			plurals = append(plurals, m)
 		} else if m.surround == "plain" && m.meaning == "" {
 			simples = append(simples, m)
+		}
+	}
+	// distinct messages with the same source text in the catalogue's own key (meaning + msgid): two plurals
+	// with the same {case 1} text, and a plain message equal to that singular text. The library tells
+	// them apart by id; each must be extracted and translated on its own.
+	{
+		tx := func(s string) MPart { return MPart{Kind: "text", Text: s} }
+		pr := func(e *E) MPart { return MPart{Kind: "print", E: e} }
+		ones := [][]MPart{{tx("one item")}, {tx("You have "), pr(vr("a"))}}
+		manys := [][]MPart{{pr(vr("n")), tx(" items")}, {tx("many of "), pr(vr("b"))}, {tx("one item")}}
+		for oi, one := range ones {
+			for mi := range manys {
+				for mj := range manys {
+					if mi >= mj {
+						continue
+					}
+					if !c.Mine() {
+						continue
+					}
+					_ = oi
+					p1 := c11msg{parts: []MPart{{Kind: "plural", E: vr("n"), Cases: []MCase{{N: 1, Body: one}}, Default: manys[mi]}}, surround: "plain"}
+					p2 := c11msg{parts: []MPart{{Kind: "plural", E: vr("n"), Cases: []MCase{{N: 1, Body: one}}, Default: manys[mj]}}, surround: "plain"}
+					p3 := c11msg{parts: one, surround: "plain"}
+					group = []c11msg{p1, p2, p3}
+					flush()
+					group = []c11msg{p3, p2, p1}
+					flush()
+				}
+			}
 		}
 	}
 	for pi, p := range plurals {
